@@ -52,7 +52,7 @@ func VerifyNameErrorNSEC(msg *dns.Msg, nsecSet []dns.RR) error {
 	var covering *dns.NSEC
 	for _, rr := range nsecSet {
 		nsec := rr.(*dns.NSEC)
-		if nsecCovers(nsec.Header().Name, nsec.NextDomain, qname) {
+		if nsecDenies(nsec, qname) {
 			covering = nsec
 			break
 		}
@@ -76,7 +76,7 @@ func VerifyNameErrorNSEC(msg *dns.Msg, nsecSet []dns.RR) error {
 	wildcard := "*." + ce
 	for _, rr := range nsecSet {
 		nsec := rr.(*dns.NSEC)
-		if nsecCovers(nsec.Header().Name, nsec.NextDomain, wildcard) {
+		if nsecDenies(nsec, wildcard) {
 			return nil
 		}
 	}
@@ -165,6 +165,15 @@ func VerifyNODATANSEC(msg *dns.Msg, nsecSet []dns.RR) error {
 				return ErrNSECBadDelegation
 			}
 
+			// The converse: an NSEC with NS and no SOA is the parent's
+			// side of a zone cut. It is authoritative for DS only; every
+			// other type at that name lives in the child zone, so the
+			// record cannot prove it absent (RFC 6840 §4.1). The
+			// aggressive path refuses the same shape.
+			if q.Qtype != dns.TypeDS && nsecDelegationBitmap(nsec.TypeBitMap) {
+				return ErrNSECBadDelegation
+			}
+
 			return nil
 		}
 	}
@@ -180,7 +189,7 @@ func VerifyNODATANSEC(msg *dns.Msg, nsecSet []dns.RR) error {
 	var covering *dns.NSEC
 	for _, rr := range nsecSet {
 		nsec := rr.(*dns.NSEC)
-		if nsecCovers(nsec.Header().Name, nsec.NextDomain, qname) {
+		if nsecDenies(nsec, qname) {
 			covering = nsec
 			break
 		}
@@ -222,6 +231,39 @@ func VerifyNODATANSEC(msg *dns.Msg, nsecSet []dns.RR) error {
 // every NSEC of every aggressive-cache probe.
 func canonicalNameCompare(a, b string) int {
 	return dnsname.CanonicalCompare(a, b)
+}
+
+// nsecDelegationBitmap reports whether a type bitmap is the parent's side
+// of a zone cut: NS without SOA.
+func nsecDelegationBitmap(bitmap []uint16) bool {
+	return typesSet(bitmap, dns.TypeNS) && !typesSet(bitmap, dns.TypeSOA)
+}
+
+// nsecDenies reports whether nsec proves that name does not exist. Canonical
+// ordering alone (nsecCovers) is not enough, for two reasons a replayed
+// genuine record exploits:
+//
+//   - An NSEC owned by a delegation point (NS without SOA) or by a DNAME
+//     owner orders the names of its own zone. Names below that owner belong
+//     to the child zone, or are redirected, so the record says nothing
+//     about them (RFC 6840 §4.1) — yet they sort right after the owner.
+//   - A next name below name means name has descendants: it is an empty
+//     non-terminal, which exists (RFC 4592 §2.2.2, RFC 8198 §5.1).
+//
+// The NSEC3 and aggressive-NSEC paths refuse both shapes already.
+func nsecDenies(nsec *dns.NSEC, name string) bool {
+	owner := nsec.Header().Name
+	if !nsecCovers(owner, nsec.NextDomain, name) {
+		return false
+	}
+	if dns.IsSubDomain(owner, name) &&
+		(nsecDelegationBitmap(nsec.TypeBitMap) || typesSet(nsec.TypeBitMap, dns.TypeDNAME)) {
+		return false
+	}
+	if dns.IsSubDomain(name, nsec.NextDomain) {
+		return false
+	}
+	return true
 }
 
 // nsecCovers reports whether an NSEC whose owner is `owner` and whose
